@@ -94,6 +94,43 @@ func genCase(t *rapid.T) Case {
 		return c
 	}
 	x := rapid.SampledFrom(cands).Draw(t, "target")
+	// a collection written on one line that carries a line comment is the interesting target of a replacement by
+	// a block collection (of its own or of the other kind), of an append and of a key creation: take one half of the time
+	var oneLine []tnode
+	for _, y := range cands {
+		if (y.n.K == gen.YMap || y.n.K == gen.YSeq) && y.n.Line != "" {
+			oneLine = append(oneLine, y)
+		}
+	}
+	if len(oneLine) > 0 && rapid.Bool().Draw(t, "onelinetarget") {
+		x = rapid.SampledFrom(oneLine).Draw(t, "oltarget")
+		c.Path = x.path
+		p := pathExpr(x.path)
+		val := rapid.SampledFrom([]string{`"new"`, `42`, `true`}).Draw(t, "olval")
+		switch rapid.IntRange(0, 5).Draw(t, "olkind") {
+		case 0:
+			c.Kind, c.Update = "replace_tree", p+` = {"m": 1, "l": [1, 2]}`
+		case 1:
+			c.Kind, c.Update = "replace_tree", p+` = ["x", {"y": 2}]`
+		case 2:
+			c.Kind, c.Update = "replace_tree", p+` |= {"m": 1}`
+		case 3:
+			if x.n.K == gen.YSeq {
+				c.Kind, c.Update = "append", p+" += ["+val+"]"
+			} else {
+				c.Kind, c.Update = "create_key", p+` += {"zz_new": `+val+"}"
+			}
+		case 4:
+			if x.n.K == gen.YSeq {
+				c.Kind, c.Update = "append", p+" |= . + ["+val+"]"
+			} else {
+				c.Kind, c.Update = "create_key", p+`.["zz_new"] = `+val
+			}
+		default:
+			c.Kind, c.Update = "replace_scalar", p+" = "+val
+		}
+		return c
+	}
 	if d.Root.K == gen.YMap && (x.n.K == gen.YMap || x.n.K == gen.YSeq) && x.n.Len() > 0 && rapid.IntRange(0, 3).Draw(t, "copyedit") == 0 {
 		// copy a subtree elsewhere, then edit the copy: the source is outside the target
 		step := ".[0]"
@@ -156,13 +193,13 @@ func genCase(t *rapid.T) Case {
 		// the selection is empty: nothing may change, in particular the container is not padded up to the index
 		if x.n.K == gen.YSeq {
 			n := x.n.Len()
-			c.Update = fmt.Sprintf("del(%s[%d])", p, n+rapid.IntRange(1, 4).Draw(t, "beyond"))
+			c.Update = fmt.Sprintf("del(%s[%d])", p, n+rapid.IntRange(0, 4).Draw(t, "beyond"))
 			switch rapid.IntRange(0, 3).Draw(t, "dnform") {
 			case 0:
-				c.Update = fmt.Sprintf("del(%s[%d], %s[%d])", p, n+2, p, n+5)
+				c.Update = fmt.Sprintf("del(%s[%d], %s[%d])", p, n, p, n+3) // the first index past the end, and one further out
 			case 1:
 				if p != "." {
-					c.Update = fmt.Sprintf("del(%s.%d)", p, n+rapid.IntRange(1, 4).Draw(t, "beyond2")) // dotted index
+					c.Update = fmt.Sprintf("del(%s.%d)", p, n+rapid.IntRange(0, 4).Draw(t, "beyond2")) // dotted index
 				}
 			}
 		} else {
@@ -170,13 +207,13 @@ func genCase(t *rapid.T) Case {
 		}
 	case "read_missing":
 		// reading past the end on the right-hand side: the only change is the new key
-		c.Update = fmt.Sprintf(`.["zz_new"] = %s[%d]`, p, x.n.Len()+rapid.IntRange(1, 4).Draw(t, "beyond"))
+		c.Update = fmt.Sprintf(`.["zz_new"] = %s[%d]`, p, x.n.Len()+rapid.IntRange(0, 4).Draw(t, "beyond"))
 		if p != "." && rapid.Bool().Draw(t, "dotted") {
-			c.Update = fmt.Sprintf(`.["zz_new"] = %s.%d`, p, x.n.Len()+rapid.IntRange(1, 4).Draw(t, "beyond2"))
+			c.Update = fmt.Sprintf(`.["zz_new"] = %s.%d`, p, x.n.Len()+rapid.IntRange(0, 4).Draw(t, "beyond2"))
 		}
 		if d.Root.K != gen.YMap {
 			c.Kind = "delete_nothing"
-			c.Update = fmt.Sprintf("del(%s[%d])", p, x.n.Len()+2)
+			c.Update = fmt.Sprintf("del(%s[%d])", p, x.n.Len())
 		}
 	case "delete":
 		c.Update = "del(" + p + ")"
@@ -570,6 +607,30 @@ func check(c Case) hx.Verdict {
 			k2 = append(k2, x)
 		}
 		keep = k2
+	}
+	// no line outside the target gains a line comment: a line `X # c` that `yq u` prints more often than `yq .`
+	// while it prints the bare line `X` less often is a node that had no comment and now carries one (the comment
+	// of the target wandering to a neighbour)
+	{
+		count := func(text string) (withC, bare map[string]int) {
+			withC, bare = map[string]int{}, map[string]int{}
+			for _, l := range strings.Split(text, "\n") {
+				if i := strings.Index(l, " # "); i > 0 && strings.TrimSpace(l[:i]) != "" {
+					withC[l]++
+				} else {
+					bare[l]++
+				}
+			}
+			return
+		}
+		bw, bb := count(base.Out)
+		uw, ub := count(upd.Out)
+		for l, n := range uw {
+			x := l[:strings.Index(l, " # ")]
+			if n > bw[l] && ub[x] < bb[x] && !strings.Contains(x, "\"") && !strings.Contains(x, "'") {
+				return hx.Bad("", "the line %q had no comment in `yq .` and is printed as %q by the update: u=%s\ninput:\n%s\n`yq .`:\n%s\n`yq u`:\n%s", x, l, c.Update, c.Text, base.Out, upd.Out)
+			}
+		}
 	}
 	got := commentsOf(upd.Out)
 	gi := 0
